@@ -310,6 +310,28 @@ def joined_of(lst):
     return SBytes.of(lst.g['joined'])
 
 
+def cs_content(cs):
+    """Content of the compressed stream under a decompresser: a caller-supplied stream or a PackedObjectReader."""
+    if isinstance(cs, EM.AbsStream):
+        return cs.content
+    if isinstance(cs, PyObj) and cs.cls.name == 'PackedObjectReader':
+        return por_view(cs).content
+    from pyvc.values import Unsupported
+    raise Unsupported(f'compressed stream {cs!r}')
+
+
+def cs_pos(cs):
+    return cs.pos if isinstance(cs, EM.AbsStream) else por_view(cs).pos
+
+
+def cs_set_pos(cs, p):
+    if isinstance(cs, EM.AbsStream):
+        cs.pos = p
+    else:
+        cs.f['_pos'] = p
+        cs.f['_fhandle'].kpos = SInt.of(cs.f['_offset']) + p
+
+
 def zd_view(d):
     """Abstract (content, pos) of a decompresser in either mode."""
     cs = d.f['_compressed_stream']
@@ -317,14 +339,14 @@ def zd_view(d):
     if not getattr(dz, 'bound', False) and isinstance(dz.inp, bytes) and dz.inp == b'':
         # a decompression object that has consumed nothing yet: its ghost "stream being fed" is the compressed stream
         # it is about to be fed from (ghost assignment, no run-time counterpart)
-        dz.Z = cs.content
+        dz.Z = cs_content(cs)
         dz.bound = True
-    D = EM.dec(True, cs.content)
+    D = EM.dec(True, cs_content(cs))
     if d.f['_use_uncompressed_stream'] is True:
         lv = lls_view(d.f['_lazy_uncompressed_stream'])
         return NS(mode='u', content=lv.content, pos=lv.pos, D=D)
     return NS(mode='c', content=D, pos=SInt.of(d.f['_pos']), D=D, cs=cs, dz=dz, buf=SBytes.of(d.f['_internal_buffer']),
-              cspos=cs.pos, inp=SBytes.of(dz.inp), out=SBytes.of(dz.out), tail=SBytes.of(dz.unconsumed_tail),
+              cspos=cs_pos(cs), inp=SBytes.of(dz.inp), out=SBytes.of(dz.out), tail=SBytes.of(dz.unconsumed_tail),
               eof=SBool.of(dz.eof))
 
 
@@ -336,7 +358,7 @@ def zd_rep(d):
         return [('lazy_open', SBool.of(fh is not None and not fh.closed)),
                 ('lazy_content_is_inflated_object', fh.content() == v.D),
                 ('lazy_pos_nonneg', fh.kpos >= 0)]
-    Z = v.cs.content
+    Z = cs_content(v.cs)
     ilen, olen = v.inp.length(), v.out.length()
     return [('pos_nonneg', v.pos >= 0),
             ('stream_is_valid_zlib', EM.zvalid(Z)),
@@ -355,12 +377,12 @@ def zd_state(vc, d, keep_pos=False):
     """Put the decompresser (compressed mode) into an arbitrary state satisfying the representation invariant,
     defined structurally from four integers (so that the solver only sees arithmetic side conditions)."""
     cs, dz = d.f['_compressed_stream'], d.f['_decompressor']
-    Z = cs.content
+    Z = cs_content(cs)
     D = EM.dec(True, Z)
     cspos, ilen, olen = SInt.fresh('cspos'), SInt.fresh('ilen'), SInt.fresh('olen')
     pos = SInt.of(d.f['_pos']) if keep_pos else SInt.fresh('zpos')
     vc.assume(b_and(ilen >= 0, ilen <= cspos, cspos <= Z.length(), pos >= 0, pos <= olen, olen <= D.length()))
-    cs.pos = cspos
+    cs_set_pos(cs, cspos)
     dz.inp, dz.unconsumed_tail, dz.out = Z.slice(0, ilen), Z.slice(ilen, cspos), D.slice(0, olen)
     dz.eof = vc.fresh_bool('eof')
     vc.assume(dz.eof == (ilen == Z.length()))
